@@ -9,6 +9,7 @@
     writer may need more than 3 of its own grants to return from a call. *)
 From Coq Require Export List NArith Bool String.
 From NoKV Require Export Base.Bytes Base.Sched Spec.SerialSpec Spec.Linearizable Model.CommitQueue Corr.Common.
+From NoKV Require Model.TxnOracle Corr.RunTxn.
 Export ListNotations.
 Local Open Scope N_scope.
 
@@ -17,7 +18,7 @@ Record group := {
   gr_ret : list N;            (* calls returned so far, per writer (threads 3, 4, ...) *)
   gr_closed : bool }.         (* Close has returned *)
 
-Record case := { c_progs : list (list cop); c_groups : list group; c_results : list (list bool) }.
+Record scase := { c_progs : list (list cop); c_groups : list group; c_results : list (list bool) }.
 
 Definition progs_of (l : list (list cop)) (t : N) : list cop :=
   if t <? 3 then [] else nth (N.to_nat (t - 3)) l [].
@@ -57,7 +58,7 @@ Fixpoint results_match (g : gstate) (t : N) (l : list (list bool)) : bool :=
   | r :: l' => bools_eqb (rev (map ok_of (returned_of g t))) r && results_match g (t + 1) l'
   end.
 
-Definition agree (c : case) : bool :=
+Definition agree (c : scase) : bool :=
   match replay_groups (g_init 1024 64 (progs_of (c_progs c))) (c_groups c) with
   | Some g => results_match g 3 (c_results c)
   | None => false
@@ -80,7 +81,7 @@ Fixpoint late_ok (l : list group) (prev_ret : list N) (closed_before : bool) (st
       (s <? 3) && late_ok l' (gr_ret x) (gr_closed x) ((t, s) :: stalls)
   end.
 
-Definition all_returned (c : case) : bool :=
+Definition all_returned (c : scase) : bool :=
   match rev (c_groups c) with
   | [] => true
   | x :: _ =>
@@ -88,14 +89,63 @@ Definition all_returned (c : case) : bool :=
       && (N.of_nat (List.length (c_progs c)) =? N.of_nat (List.length (gr_ret x)))
   end.
 
-Definition spec_ok (c : case) : bool :=
+Definition spec_ok (c : scase) : bool :=
   all_returned c && late_ok (c_groups c) (map (fun _ => 0) (c_progs c)) false [].
 
-Definition check (c : case) : verdict := mk_verdict (negb (agree c)) (negb (spec_ok c)) 0.
+(** Second kind of case: transactional calls around a rejected commit (too
+    large for one request, commit queue closed), each executed under a
+    watchdog.  The model is the call-atomic [Model.TxnOracle] (a rejected commit
+    releases its commit timestamp: [orc_done_commit] on every exit of Commit;
+    [C37_begin_never_waits]); the specification violated by a call that does
+    not return is C37's "operations always finish". *)
+Inductive case :=
+| SchedCase (c : scase)
+| TxnCase (c : RunTxn.case).
+
+Definition check (c : case) : verdict :=
+  match c with
+  | SchedCase c => mk_verdict (negb (agree c)) (negb (spec_ok c)) 0
+  | TxnCase c =>
+      let v := RunTxn.check c in
+      mk_verdict (v_mismatch v) (v_violation v || negb (RunTxn.no_hang c)) 0
+  end.
 
 (* compact constructors *)
 Definition St (k v : string) (big : bool) : cop := CSet (unhex k) (Some (unhex v)) false big.
 Definition Gr (t : N) (ran : bool) (p : list N) (r : list N) (cl : bool) : group :=
   {| gr_tid := t; gr_ran := ran; gr_picks := p; gr_ret := r; gr_closed := cl |}.
 Definition Cs (p : list (list cop)) (g : list group) (r : list (list bool)) : case :=
-  {| c_progs := p; c_groups := g; c_results := r |}.
+  SchedCase {| c_progs := p; c_groups := g; c_results := r |}.
+
+(* transactional cases: the constructors of Corr.RunTxn with the prefix T *)
+Definition TCs g f l : case := TxnCase (RunTxn.Cs g f l).
+Notation TCfg := RunTxn.Cfg.
+Notation TFP := RunTxn.FP.
+Notation TV := RunTxn.V.
+Notation TB := RunTxn.B.
+Notation TBh := RunTxn.Bh.
+Notation TG := RunTxn.G.
+Notation TS := RunTxn.S.
+Notation TD := RunTxn.D.
+Notation TC := RunTxn.C.
+Notation TX := RunTxn.X.
+Notation TXh := RunTxn.Xh.
+Notation TCl := RunTxn.Cl.
+Notation TClh := RunTxn.Clh.
+Notation TRo := RunTxn.Ro.
+Notation TRoh := RunTxn.Roh.
+Notation TFw := RunTxn.Fw.
+Notation TDu := RunTxn.Du.
+Notation TVl := RunTxn.Vl.
+Notation TNf := RunTxn.Nf.
+Notation RNil := RunTxn.RNil.
+Notation RErr := RunTxn.RErr.
+Notation RHung := RunTxn.RHung.
+Notation ROther := RunTxn.ROther.
+Notation EConflict := TxnOracle.EConflict.
+Notation ETooBig := TxnOracle.ETooBig.
+Notation EBlocked := TxnOracle.EBlocked.
+Notation EReadOnly := TxnOracle.EReadOnly.
+Notation EDiscarded := TxnOracle.EDiscarded.
+Notation ECommitDiscarded := TxnOracle.ECommitDiscarded.
+Notation EApply := TxnOracle.EApply.
